@@ -37,7 +37,7 @@ TNext == /\ l <= NT /\ l' = l + 1 /\ lastOp' = lastOp
          /\ IF Ev.op = "reset" THEN seq' = <<>> /\ max' = 0 /\ skipping' = FALSE /\ vtab' = Ev.vals
             ELSE IF skipping THEN UNCHANGED <<seq, max, skipping, vtab>>
             ELSE IF Ev.op \in {"crash", "timeout"} THEN
-                 Reject({Ev.op}, "no action admits this event") /\ skipping' = TRUE /\ UNCHANGED <<seq, max, vtab>>
+                 Reject({Ev.op, "result"}, "no action admits this event") /\ skipping' = TRUE /\ UNCHANGED <<seq, max, vtab>>
             ELSE IF Why \cap (Owned \cup {"result", "state", "enomem"}) = {} THEN
                  /\ UNCHANGED <<skipping, vtab>>
                  /\ IF Ev.op = "free" THEN UNCHANGED <<seq, max>>
